@@ -119,6 +119,8 @@ void * ym2612_init(void *param, int baseclock, int rate,
  * @param chip Chip instance
  */
 void ym2612_shutdown(void *chip);
+/* build the generic (chip independent) tables once; ym2612_init() does it on first use */
+void ym2612_init_tables(void);
 /**
  * @brief Reset state of the chip
  * @param chip Chip instance
